@@ -8,6 +8,7 @@ import AkVerif.Lemmas.GhistWindow
 import AkVerif.Lemmas.GhistPlugTotal
 import AkVerif.Lemmas.GhistInclSpec
 import AkVerif.Lemmas.GhistExample
+import AkVerif.Model.GhistTags
 /-!
 # C07 — component builds are reported at the first parent build that ships them
 
@@ -376,6 +377,45 @@ theorem analysis_total (repos : List RepoIn) (hnd : (repos.map (·.id)).Nodup)
   · right
     rw [h1]
     exact ⟨rfl, hc⟩
+
+/-! ## which entries are members of the collection, which commits are builds -/
+
+/-- **C07.skipped_not_member** — an entry the constructor skips (a path whose id has no repository class) is no member of
+the collection the ordering and the analysis work on — whoever names it as a component; every other entry is -/
+theorem skipped_not_member {α} (supplied : List (α × Bool)) (x : α) :
+    x ∈ keptRepos supplied ↔ (x, true) ∈ supplied := by
+  simp [keptRepos]
+
+/-- **C07.saved_detector** — for a repository that keeps its build number in a file, a commit is a build exactly when the
+number saved in it differs from the number saved in every one of its parents (whatever their order), and its build
+number is then the saved one -/
+theorem saved_detector (sv : List BN) (parents : List Nat) (c : Nat) (b : BN) (hc : sv[c]? = some b) :
+    (savedTags sv parents c = [b] ↔ ∀ p ∈ parents, sv[p]? ≠ some b) ∧
+    (savedTags sv parents c = [] ↔ ∃ p ∈ parents, sv[p]? = some b) := by
+  have hall : savedIsBuild sv parents c = true ↔ ∀ p ∈ parents, sv[p]? ≠ some b := by
+    simp [savedIsBuild, hc]
+  have hex : (∃ p ∈ parents, sv[p]? = some b) ↔ ¬ ∀ p ∈ parents, sv[p]? ≠ some b := by
+    constructor
+    · rintro ⟨p, hp, he⟩ h; exact h p hp he
+    · intro h
+      apply Classical.byContradiction
+      intro hno
+      exact h (fun p hp he => hno ⟨p, hp, he⟩)
+  by_cases hb : savedIsBuild sv parents c = true
+  · have hv : savedTags sv parents c = [b] := by unfold savedTags; rw [if_pos hb, hc]
+    rw [hv]
+    constructor
+    · exact ⟨fun _ => hall.mp hb, fun _ => rfl⟩
+    · constructor
+      · intro h; cases h
+      · intro h; exact absurd (hall.mp hb) (hex.mp h)
+  · have hv : savedTags sv parents c = [] := by unfold savedTags; rw [if_neg hb]
+    rw [hv]
+    constructor
+    · constructor
+      · intro h; cases h
+      · intro h; exact absurd (hall.mpr h) hb
+    · exact ⟨fun _ => hex.mpr (fun h => hb (hall.mpr h)), fun _ => rfl⟩
 
 /-! ## what the driver prints is what the theorems are about -/
 
